@@ -44,6 +44,10 @@ CHECKS = {
    text='Machine-checked (axiom-free): inserting lines creates/removes no gap at any depth; overwriting a line changes the open gaps exactly by the old and new line, so a spliced tactic proof leaves the previous gaps other than the goal plus the gaps of its own proof term (what the suggestion advertises). Exploration: for every prefix state of the recorded proofs, up to 3 gaps and several fact selections, each suggestion of search_method is applied to a copy (declared open parameters supplied): it must succeed or raise ParameterQueryException; on success new open subgoals must be among the advertised ones, solving suggestions leave none, advertised facts appear. Partial: the ~25 search implementations are explored, not modelled.',
    note='Trusted: Coq kernel; the exploration harness (state coverage = recorded proofs); parameter synthesis for `s` / `names` is heuristic (otherwise the case is counted as needs-parameter).',
    design='7/C14'),
+ 'C12': dict(category='proof', technique='Coq proof of history independence of the cache state machine (instantiated on the import graph regenerated from library/*.json every run) + scripted histories in fresh subprocesses compared by canonical digest of theory.thy.data',
+   text='Machine-checked (axiom-free): for every acyclic import structure, item lists and context-dependent item parser, after any history of loads and cache invalidations load_theory yields exactly what a fresh process yields (model of load_theory_cache/load_theory); the acyclicity premise is re-proved by vm_compute on the import table regenerated from the current library. Histories (module imports with load side effects, earlier loads, double loads, limits, missing limits, touch/modify/interrupt on a scratch library, import cycle) each run in a fresh subprocess and the digest of theory.thy.data is compared with the fresh-process reference.',
+   note='Trusted: Coq kernel; items/parser abstract in the model; CPython import system and file system exercised by the histories, not modelled.',
+   design='7/C12'),
 }
 m = {
  'version': 1,
